@@ -1,10 +1,21 @@
 (* C13 -- TwoLevel: periodic disk checkpoints, binomially optimal recomputation
    Property theorems only: each proof is one application of a lemma proved in Proofs/, followed by Print Assumptions. *)
 From Coq Require Import ZArith List Bool.
-From CS Require TLInv TLSweep Online TLStorage HRevUses.
+From CS Require TLInv TLSweep Online TLStorage HRevUses GenLang2 GenTwo.
 From CS Require Import Actions NAdvance Multistage Exec Sched RunFacts Projections BasicInv MultistageRun AllocTotal TLBridge MixBridge.
 Import ListNotations.
 Open Scope Z_scope.
+
+(* THE MODEL OF TwoLevelCheckpointSchedule IS THE SOURCE: GenTwo.two_prog_model is the program (generator language GenLang2: named locals, the snapshots stack, //, *, min, n_advance, assert, del) that harness/translate.py produces from TwoLevelCheckpointSchedule._iterator; Gen/TwoLevelGen.v re-translates the current source on every run and proves it equal to that term by conversion.  Resuming that program request by request from the freshly constructed object gives, for every period, unit count, storage and trajectory the constructor accepts and under EVERY history of next() and finalize(k) calls, exactly the observations (outcome, n, r, max_n, is_exhausted) of the hand-written machine Online.run_ops (class KTwo) -- so the TwoLevel theorems of this file, stated on the extracted model, are theorems about the translated source (n_advance itself is tied by Gen/NAdvanceGen.v) *)
+Module M_C13_twolevel_source_is_model.
+Import GenTwo.
+Theorem C13_twolevel_source_is_model :
+  forall (p bs : Z) (st : Actions.storage) (tr : NAdvance.traj) (ops : list Online.op) (s : Online.st),
+         Online.construct (Online.KTwo p bs st tr) = Actions.Ok s ->
+         grun_ops (cfg_of p bs st tr) [GenLang2.FS two_prog_model] g_init ops = Online.run_ops s ops.
+Proof. exact (@GenTwo.two_from_start). Qed.
+Print Assumptions C13_twolevel_source_is_model.
+End M_C13_twolevel_source_is_model.
 
 (* FIRST CLAUSE, extracted model, every period >= 1, every binomial_snapshots, both storages, both trajectories, every number j of requests before finalisation: the observations are exactly Forward(i P, (i+1) P, write_ics, DISK) with n = (i+1) P, r = 0, max_n unknown, not exhausted, for i = 0 .. j-1 *)
 Module M_C13_sweep_pattern.
